@@ -358,13 +358,16 @@ impl<'a> Gen<'a> {
         let mut seen: Vec<(Option<String>, String)> = vec![];
         let mut seen_exp: Vec<(Option<String>, String)> = vec![];
         for _ in 0..na {
-            let local = gen_name(self.r, &self.cfg);
+            // now and then a name that merely begins like a namespace declaration (it is an ordinary attribute)
+            let local = if self.r.chance(1, 40) { self.r.pick_s(&["xmlnsfoo", "xmlns.a", "xmlns-", "xmlnsx1"]).to_string() } else { gen_name(self.r, &self.cfg) };
             if local == "xmlns" { continue; }
             let mut prefix = None;
             if self.cfg.namespaces {
                 if !bound.is_empty() && self.r.chance(1, 4) { prefix = Some(self.r.pick(&bound).clone()); }
                 else if self.r.chance(1, 12) { prefix = Some("xml".to_string()); }
             }
+            // "p:xmlns" is an ordinary attribute of p's namespace
+            let local = if prefix.is_some() && prefix.as_deref() != Some("xml") && self.r.chance(1, 30) { "xmlns".to_string() } else { local };
             let uri = match prefix.as_deref() { None => None, Some("xml") => Some(XML_NS.to_string()), Some(p) => scope.lookup(Some(p)).map(|s| s.to_string()) };
             let key = (prefix.clone(), local.clone());
             let ekey = (uri, local.clone());
